@@ -17,7 +17,9 @@ for d in sorted(glob.glob("/verif/seeded/*/meta.json")):
                 title = l[:110]
                 break
     how = "native" if "demo_with_patch_miri" not in m else "miri"
-    rows.append("| %s | %s | %s | %s | %s | %s |" % (name, title.replace("|", "/"), "yes" if m.get("valid") else "NO", how, "**yes**" if m.get("own_check_catches") else "no", ", ".join(m.get("caught_by", []))))
-print("| seed | change (first line of the sub-agent's README) | valid | demo decided | own check catches | caught by |")
-print("|---|---|---|---|---|---|")
+    rc = m.get("recheck", {})
+    final = rc.get("note") or (", ".join(rc.get("reported_by", [])) if rc else "(not re-run)")
+    rows.append("| %s | %s | %s | %s | %s | %s | %s |" % (name, title.replace("|", "/"), "yes" if m.get("valid") else "NO", how, "**yes**" if m.get("own_check_catches") else "no", ", ".join(m.get("caught_by", [])), final))
+print("| seed | change (first line of the sub-agent's README) | valid | demo decided | own check catches | reported by (all checks, when validated) | reported by (final machinery; only the checks of the previous column and the seed's own were re-run) |")
+print("|---|---|---|---|---|---|---|")
 print("\n".join(rows))
